@@ -5,29 +5,29 @@
 (***************************************************************************)
 EXTENDS SelectAlg, TLAPS
 
-LEMMA InitInv == Init => Inv
-  BY DEF Assumptions, params, Init, Inv, TypeOK, NoPanicInRange, OorInv, InRange, WantInv, SandwichInv, Post, Idx, InWin
+LEMMA InitCore == Init => Core
+  BY DEF Assumptions, params, Init, Core, TypeOK, NoPanicInRange, OorInv, InRange, WantInv, SandwichInv, Post, Idx, InWin
 
-LEMMA CheckRangeInv == Inv /\ CheckRange => Inv'
-  BY DEF Assumptions, params, Inv, CheckRange, TypeOK, NoPanicInRange, OorInv, InRange, WantInv, SandwichInv, Post, Idx, InWin
+LEMMA CheckRangeCore == Core /\ CheckRange => Core'
+  BY DEF Assumptions, params, Core, CheckRange, TypeOK, NoPanicInRange, OorInv, InRange, WantInv, SandwichInv, Post, Idx, InWin
 
-LEMMA LenOneInv == Inv /\ LenOneShortcut => Inv'
-  BY DEF Assumptions, params, Inv, LenOneShortcut, Guarded, TypeOK, NoPanicInRange, OorInv, InRange, WantInv, SandwichInv, Post, Idx, InWin
+LEMMA LenOneCore == Core /\ LenOneShortcut => Core'
+  BY DEF Assumptions, params, Core, LenOneShortcut, Guarded, TypeOK, NoPanicInRange, OorInv, InRange, WantInv, SandwichInv, Post, Idx, InWin
 
-LEMMA EmptyRangeInv == Inv /\ EmptyRangePanic => Inv'
-  BY DEF Assumptions, params, Inv, EmptyRangePanic, Guarded, TypeOK, NoPanicInRange, OorInv, InRange, WantInv, SandwichInv, Post, Idx, InWin
+LEMMA EmptyRangeCore == Core /\ EmptyRangePanic => Core'
+  BY DEF Assumptions, params, Core, EmptyRangePanic, Guarded, TypeOK, NoPanicInRange, OorInv, InRange, WantInv, SandwichInv, Post, Idx, InWin
 
-LEMMA DrawInv == Inv /\ DrawAndPartition => Inv'
-  <1> SUFFICES ASSUME Inv, DrawAndPartition PROVE Inv'
+LEMMA DrawCore == Core /\ DrawAndPartition => Core'
+  <1> SUFFICES ASSUME Core, DrawAndPartition PROVE Core'
     OBVIOUS
   <1> USE DEF Idx, InWin
   <1>00. InRange /\ InRange'
-    BY DEF Inv, TypeOK, OorInv, InRange, DrawAndPartition, Guarded, params, Assumptions
+    BY DEF Core, TypeOK, OorInv, InRange, DrawAndPartition, Guarded, params, Assumptions
   <1>0. /\ TypeOK /\ WantInv /\ SandwichInv /\ pc = "run" /\ want < hi - lo /\ hi - lo >= 2
         /\ Len0' = Len0 /\ Want0' = Want0
-    BY DEF Inv, DrawAndPartition, Guarded, params
+    BY DEF Core, DrawAndPartition, Guarded, params
   <1>1. PICK k \in 0 .. (hi - lo - 1) :
-          /\ PartitionContract(arr, arr', k)
+          /\ PartitionContract(arr, arr', k, lastq')
           /\ IF want < k
              THEN hi' = lo + k /\ UNCHANGED <<lo, want, ret, pc>>
              ELSE IF want = k
@@ -41,7 +41,7 @@ LEMMA DrawInv == Inv /\ DrawAndPartition => Inv'
         /\ \A y \in Idx : InWin(y) => \E y0 \in Idx : InWin(y0) /\ arr'[y] = arr[y0]
         /\ \A y \in Idx : (InWin(y) /\ y < lo + k) => arr'[y] < arr'[lo + k]
         /\ \A y \in Idx : (InWin(y) /\ y > lo + k) => arr'[y] >= arr'[lo + k]
-    BY <1>1 DEF PartitionContract
+    BY <1>1 DEF PartitionContract, Rearranges
   <1>3. /\ lo \in Int /\ hi \in Int /\ want \in Int /\ k \in Int /\ 0 <= k /\ k < hi - lo
         /\ 0 <= lo /\ lo <= hi /\ hi <= Len0 /\ Len0 \in Nat /\ Want0 \in Nat /\ Want0 < Len0
         /\ lo + want = Want0 /\ 0 <= want /\ lo + k \in Idx /\ InWin(lo + k)
@@ -55,8 +55,12 @@ LEMMA DrawInv == Inv /\ DrawAndPartition => Inv'
       BY <1>2
     <2>2. x < lo => arr'[x] = arr[x] /\ arr[x] <= arr[y0]
       BY <1>0, <1>2, <1>3, <2>1 DEF SandwichInv, InWin
+    <2>3a. x >= hi => ~InWin(x)
+      BY <1>3
+    <2>3b. x >= hi => arr[y0] <= arr[x]
+      BY <1>0, <2>1 DEF SandwichInv
     <2>3. x >= hi => arr'[x] = arr[x] /\ arr[y0] <= arr[x]
-      BY <1>0, <1>2, <1>3, <2>1 DEF SandwichInv, InWin
+      BY <1>2, <2>3a, <2>3b
     <2> QED BY <2>1, <2>2, <2>3
   <1>5. \A y \in Idx : arr'[y] \in Int
     BY <1>2
@@ -84,7 +88,7 @@ LEMMA DrawInv == Inv /\ DrawAndPartition => Inv'
       BY <1>0, <2>1 DEF Post
     <2>6. NoPanicInRange' /\ OorInv'
       BY <1>00, <1>0, <2>1 DEF NoPanicInRange, OorInv
-    <2> QED BY <2>2, <2>3, <2>4, <2>5, <2>6 DEF Inv
+    <2> QED BY <2>2, <2>3, <2>4, <2>5, <2>6 DEF Core
   <1>b. CASE want = k
     <2>1. ret' = arr'[lo + want] /\ pc' = "done" /\ lo' = lo /\ hi' = hi /\ want' = want
       BY <1>1, <1>b
@@ -112,7 +116,7 @@ LEMMA DrawInv == Inv /\ DrawAndPartition => Inv'
       <3> QED BY <1>0, <2>1, <3>1, <3>2, <3>3 DEF Post, Idx
     <2>6. NoPanicInRange' /\ OorInv'
       BY <1>00, <1>0, <2>1 DEF NoPanicInRange, OorInv
-    <2> QED BY <2>2, <2>3, <2>4, <2>5, <2>6 DEF Inv
+    <2> QED BY <2>2, <2>3, <2>4, <2>5, <2>6 DEF Core
   <1>c. CASE want > k
     <2>1. lo' = lo + k + 1 /\ want' = want - (k + 1) /\ hi' = hi /\ ret' = ret /\ pc' = pc
       BY <1>1, <1>3, <1>c
@@ -137,14 +141,62 @@ LEMMA DrawInv == Inv /\ DrawAndPartition => Inv'
       BY <1>0, <2>1 DEF Post
     <2>6. NoPanicInRange' /\ OorInv'
       BY <1>00, <1>0, <2>1 DEF NoPanicInRange, OorInv
-    <2> QED BY <2>2, <2>3, <2>4, <2>5, <2>6 DEF Inv
+    <2> QED BY <2>2, <2>3, <2>4, <2>5, <2>6 DEF Core
   <1> QED BY <1>a, <1>b, <1>c, <1>3
 
-LEMMA StutterInv == Inv /\ UNCHANGED vars => Inv'
-  BY DEF Assumptions, params, Inv, vars, TypeOK, NoPanicInRange, OorInv, InRange, WantInv, SandwichInv, Post, Idx, InWin
+LEMMA StutterCore == Core /\ UNCHANGED vars => Core'
+  BY DEF Assumptions, params, Core, vars, TypeOK, NoPanicInRange, OorInv, InRange, WantInv, SandwichInv, Post, Idx, InWin
+
+LEMMA InitPerm == Init => PermInv
+  BY DEF Init, PermInv, Idx
+
+(* rearranging by an injective q keeps "every cell holds the element of a distinct original cell" *)
+LEMMA DrawPerm == Inv /\ DrawAndPartition => PermInv'
+  <1> SUFFICES ASSUME Inv, DrawAndPartition PROVE PermInv'
+    OBVIOUS
+  <1>0. PermInv /\ Len0' = Len0 /\ Arr0' = Arr0
+    BY DEF Inv, DrawAndPartition, params
+  <1>1. PICK k \in 0 .. (hi - lo - 1) : PartitionContract(arr, arr', k, lastq')
+    BY DEF DrawAndPartition
+  <1> DEFINE q == lastq'
+  <1>2. q \in [Idx -> Idx] /\ perm' = [x \in Idx |-> perm[q[x]]]
+    BY DEF DrawAndPartition
+  <1>3. /\ \A x \in Idx : \A y \in Idx : x # y => q[x] # q[y]
+        /\ \A x \in Idx : arr'[x] = arr[q[x]]
+        /\ \A x \in Idx : q[x] \in Idx
+    BY <1>1, <1>2 DEF PartitionContract, Rearranges
+  <1>4. /\ perm \in [Idx -> Idx] /\ Arr0 \in [Idx -> Int]
+        /\ \A x \in Idx : \A y \in Idx : x # y => perm[x] # perm[y]
+        /\ \A x \in Idx : arr[x] = Arr0[perm[x]]
+    BY <1>0 DEF PermInv
+  <1>5. /\ perm' \in [Idx -> Idx]
+        /\ \A x \in Idx : \A y \in Idx : x # y => perm'[x] # perm'[y]
+        /\ \A x \in Idx : arr'[x] = Arr0[perm'[x]]
+    <2> HIDE DEF Idx
+    <2> QED BY <1>2, <1>3, <1>4
+  <1> QED BY <1>0, <1>4, <1>5 DEF PermInv, Idx
+
+LEMMA KeepPerm == ASSUME PermInv, UNCHANGED <<arr, perm, Arr0, Len0>> PROVE PermInv'
+  BY DEF PermInv, Idx
 
 THEOREM Safety == Spec => []Inv
   <1>1. Inv /\ [Next]_vars => Inv'
-    BY CheckRangeInv, LenOneInv, EmptyRangeInv, DrawInv, StutterInv DEF Next
-  <1>. QED  BY InitInv, <1>1, PTL DEF Spec
+    <2> SUFFICES ASSUME Inv, [Next]_vars PROVE Inv'
+      OBVIOUS
+    <2>1. Core /\ PermInv
+      BY DEF Inv
+    <2>a. CASE CheckRange
+      BY <2>1, <2>a, CheckRangeCore, KeepPerm DEF Inv, CheckRange, params
+    <2>b. CASE LenOneShortcut
+      BY <2>1, <2>b, LenOneCore, KeepPerm DEF Inv, LenOneShortcut, params
+    <2>c. CASE EmptyRangePanic
+      BY <2>1, <2>c, EmptyRangeCore, KeepPerm DEF Inv, EmptyRangePanic, params
+    <2>d. CASE DrawAndPartition
+      BY <2>1, <2>d, DrawCore, DrawPerm DEF Inv
+    <2>e. CASE UNCHANGED vars
+      BY <2>1, <2>e, StutterCore, KeepPerm DEF Inv, vars, params
+    <2> QED BY <2>a, <2>b, <2>c, <2>d, <2>e DEF Next
+  <1>2. Init => Inv
+    BY InitCore, InitPerm DEF Inv
+  <1>. QED  BY <1>1, <1>2, PTL DEF Spec
 =============================================================================
